@@ -30,7 +30,42 @@ LANGID_RULE = ("suite `langid`: G2 token sequences (12 first tokens x boundary-c
                "case/separator masks; G4 1-3 edit mutations of them; from_parts with shuffled/duplicated variants; the C11 product domain "
                "(108 x 108 x 4 flag pairs); random parsed pairs for matches / cmp / == / hash / == &str. non-trivial = distinct (operation, input) pairs the model accepts")
 
+def run(suite, ops=None, features=(), only_panics=False):
+    d = {"suite": suite, "ops": ops, "features": list(features), "extra": (["--ops", ",".join(ops)] if ops else [])}
+    if only_panics:
+        d["only_panics"] = True
+        d["extra"] = []
+    return d
+
+LOCALE_RULE = ("suite `locale` (harness built with likelysubtags + hook): the regression corpus of minimised earlier failures first; every byte through "
+               "ExtensionType::from_byte; G2 token sequences (12 first tokens x ~78-token boundary alphabet: all sequences of <= 3 tokens, <= 4 over a 31-token "
+               "alphabet, `en-<singleton>-` + 3 tokens; thorough: one more level) with random '-'/'_' masks; G3 random well-formed locales (all extension shapes, "
+               "random case/separators); G4 1-3 edit mutations; ExtensionsMap::from_bytes on extension strings (with and without the leading '-'); random pairs for "
+               "matches/cmp/==/hash; metamorphic pairs (permuted / duplicated variants and attributes, permuted keywords and tfields, swapped -u-/-t-, re-cased, "
+               "re-separated); 100k-subtag inputs; G6 operation histories (random up to 80 steps with valid, boundary and invalid arguments from default() and from "
+               "parsed values; exhaustive pairs (thorough: triples) over 36 small operations from 3 starts), every getter + to_string + re-parse after every step. "
+               "non-trivial = distinct (operation, input) pairs whose model answer is OK")
+
 PROPS = {
+    "C01": {
+        "runs": lambda tier: [run("locale", features=["likely"], only_panics=True), run("langid", only_panics=True),
+                              run("subtags", only_panics=True), run("likely", features=["likely"], only_panics=True)],
+        "rule": "all four suites (subtags, langid, locale, likely) under catch_unwind with a recording panic hook and a per-call watchdog; for C01 only panics, "
+                "hangs, aborts and the `big` (100k-subtag) cases count. " + LOCALE_RULE,
+    },
+    "C03": {"runs": lambda tier: [run("locale", ops=["locale", "extmap", "ext_type"], features=["likely"])], "rule": LOCALE_RULE},
+    "C04": {"runs": lambda tier: [run("locale", ops=["loc_canonicalize", "loc_hist"], features=["likely"]), run("langid", ops=["li_canonicalize", "langid", "li_from_parts"])],
+            "rule": LOCALE_RULE + " || " + LANGID_RULE},
+    "C05": {"runs": lambda tier: [run("locale", ops=["loc_roundtrip", "extmap", "loc_canonicalize", "loc_hist"], features=["likely"]), run("langid", ops=["li_roundtrip", "li_canonicalize"])],
+            "rule": LOCALE_RULE},
+    "C09": {"runs": lambda tier: [run("locale", ops=["loc_meta", "li_meta"], features=["likely"])], "rule": LOCALE_RULE},
+    "C10": {"runs": lambda tier: [run("locale", ops=["loc_hist"], features=["likely"])], "rule": LOCALE_RULE},
+    "C11": {"runs": lambda tier: [run("langid", ops=["li_matches", "lang_matches"]), run("locale", ops=["loc_matches"], features=["likely"])], "rule": LOCALE_RULE},
+    "C12": {"runs": lambda tier: [run("langid", ops=["li_cmp", "li_eq_str"]), run("locale", ops=["loc_cmp"], features=["likely"])], "rule": LOCALE_RULE},
+    "C13": {"runs": lambda tier: [run("locale", ops=["both", "loc_conv"], features=["likely"])], "rule": LOCALE_RULE},
+    "C17": {"runs": lambda tier: [run("subtags", ops=["lang_raw", "script_raw", "region_raw", "variant_raw"]), run("langid", ops=["li_from_parts", "li_into_parts"]),
+                                  run("locale", ops=["loc_into_parts"], features=["likely"])], "rule": LOCALE_RULE},
+
     "C06": {
         "runs": simple("likely", ops=["maximize", "li_maximize"], features=["likely"]),
         "rule": LIKELY_RULE,
